@@ -120,6 +120,23 @@ def check(repo: Repo, rep: Report) -> None:
                 rep.ob("Y9-scheduler-resolved", g_, f"{g_.qual}: `{short(x_.node, 40)}` on `{R} = {short(defs_[0], 60) if defs_ else '<parameter>'}`", ok_,
                        f"{g_.qual} schedules on `{R}`, which is not resolved through `... or <default scheduler>()`: when neither the factory nor "
                        f"subscribe() was given a scheduler it is None and the subscription fails with AttributeError instead of emitting")
+    rep.rule("Y10-converted-comparisons", "timer: comparisons with numeric literals are made on values converted with to_seconds(), never on the raw time argument", floor=2)
+    tmod = repo.module(O + "timer.py")
+    for g_ in tmod.root.walk():
+        if not g_.is_func:
+            continue
+        conv = {u(n_.targets[0]) for n_ in g_.direct_nodes() if isinstance(n_, ast.Assign) and any(isinstance(c, ast.Call) and isinstance(c.func, ast.Attribute) and c.func.attr == "to_seconds" for c in ast.walk(n_.value))}
+        for n_ in g_.direct_nodes():
+            if isinstance(n_, ast.Compare) and len(n_.ops) == 1 and isinstance(n_.ops[0], (ast.Lt, ast.LtE, ast.Gt, ast.GtE)):
+                sides = [n_.left, n_.comparators[0]]
+                lit = [x for x in sides if isinstance(x, ast.Constant) and isinstance(x.value, (int, float))]
+                oth = [x for x in sides if isinstance(x, ast.Name)]
+                if lit and oth:
+                    o = g_.owner(oth[0].id)
+                    conv_o = {u(m_.targets[0]) for m_ in (o.direct_nodes() if o is not None else ()) if isinstance(m_, ast.Assign) and any(isinstance(c, ast.Call) and isinstance(c.func, ast.Attribute) and c.func.attr == "to_seconds" for c in ast.walk(m_.value))}
+                    rep.ob("Y10-converted-comparisons", g_, f"{g_.qual}: `{short(n_)}`", oth[0].id in (conv | conv_o),
+                           f"{g_.qual} compares `{oth[0].id}` with a number although it is not the seconds value obtained from to_seconds(): a due time / "
+                           f"period given as a timedelta raises TypeError (delivered as on_error) instead of being scheduled")
     rep.rule("Y7-no-shortcut", "a primitive source factory has one result: the observable built from its subscribe function (no argument-dependent early return)", floor=9)
     for rel_, q_ in (("range.py", "range_"), ("fromiterable.py", "from_iterable_"), ("generate.py", "generate_"), ("generatewithrelativetime.py", "generate_with_relative_time_"),
                      ("returnvalue.py", "return_value_"), ("returnvalue.py", "from_callable_"), ("empty.py", "empty_"), ("throw.py", "throw_"), ("never.py", "never_"),
